@@ -318,7 +318,10 @@ def run(ctx):
         "labels_replayed": sum(len(m[3]) for m in meta),
         "rule": "sessions (first and continued; root / sub-directory / nested fillers; single-process multi-writer calls) on fb/npz/tfrec; a snapshot of the "
                 "dataset directory before every open/rename/mkdir/remove under the root, after every rename and after every write_example, each opened by the "
-                "recovery oracle; torn variants truncate every file no reachable document names; distinct = (format, session kind, sub-directory, continued?)",
+                "recovery oracle; torn variants truncate every file no reachable document names; a metadata file opened for writing in place is truncated (crash right after the open); "
+                "every other session with renames across directories failing (EXDEV); the documents and order of the observed renames are compared with M-TREE's effect-emitting "
+                "session (multiSessionE) and the reader's enumeration of every after-rename snapshot with the model's crash state; splits first written through sub-directory writers; "
+                "distinct = (format, session kind, sub-directory, continued?)",
         "samples": [{"labels": m[3][:14]} for m in meta[:2]],
         "input_distribution": {"sessions": sessions_run, "snapshots": nsnaps, "torn": ntorn,
                                "label_kinds": collections.Counter(l[0] for m in meta for l in m[3])},
